@@ -156,6 +156,18 @@ def run(ctx):
         validate(wd, os.path.join(wd, "replay.ndjson"), verdict, "replay")
         return verdict.finish()
     thorough = ctx.tier == "thorough"
+    # L1: operational plan semantics (tla/sparql/Plan.tla): for every stable pattern of the menu, every dataset of the small
+    # universe and every assignment of join algorithms, Exec(plan) = Eval(pattern); all-bind execution = the "sideways" reading;
+    # negative control: every unstable pattern has a dataset on which the algorithms disagree (F-C02-bindjoin at design level)
+    rc_, out_, _ = vlib._tlc(os.path.join(vlib.TLA, FAMILY), "MCPlan.tla", "MCPlan.cfg", 1, 900, env_extra={"JAVA_TOOL_OPTIONS": "-Xss512m"}, tag="c02-plan")
+    plan = {t[1]: t[2:] for tag_, t in [(x[0], x[1]) for x in vlib._printed_tuples_any(out_, "PLAN")] }
+    if plan.get("Theorem") != [True] or plan.get("Sideways") != [True] or plan.get("Control") != [True]:
+        import sys as _sys
+        _sys.stdout.write(out_[-3000:])
+        raise vlib.ToolError(f"Plan.tla theorem check did not come out as expected (design-level model, not a verdict): {plan}")
+    l1_instances = plan["stable patterns"][-1]
+    log(f"L1 Plan.tla: Exec(plan) = Eval(pattern) for {l1_instances} (stable pattern, dataset, join-algorithm assignment) instances; "
+        f"all-bind = sideways reading; negative control (unstable patterns disagree) holds")
     n = 600 if thorough else 50
     cases = gen_cases(ctx.seed, n, [1, 2, 4, 16] if thorough else [1, 4, 16], 27 if thorough else 9)
     vlib.write_ndjson(os.path.join(wd, "cases.ndjson"), cases)
@@ -180,11 +192,11 @@ def run(ctx):
            "rule": "one evaluation = one execution of a physical plan; distinct by (query text, plan shape, statistics, pool size); "
                    "non-trivial = accepted with a non-empty solution multiset",
            "samples": [{"text": smp["text"], "cfg": smp["cfg"], "solutions": smp["nsols"]}],
-           "states": res["states"], "transitions": res["states"], "traces_validated_against_impl": len(events),
+           "states": l1_instances, "transitions": l1_instances, "traces_validated_against_impl": len(events), "trace_states": res["states"],
            "configurations": dims, "executions_with_more_than_64_solutions": sum(1 for m in meta.values() if m["nsols"] > 64), "distinct_plan_shapes": len(shapes), "skipped": len(res["info"]), "rejected": len(failed)}
     vlib.write_evidence("C02", ctx.tier, ctx.seed, "model_checking", cov,
                         ["interleavings inside rayon are not controlled; pool size is a configuration axis only",
                          "join assignments are exhaustive up to max_assign per plan and seeded samples beyond",
-                         "the design-level theorem Exec(p) = Eval(L) for all candidate plans (DESIGN.md Plan.tla) is not model checked; the binding is trace validation"],
+                         "L1 (Plan.tla) is a theorem evaluated by TLC over a menu of 13 patterns x 64 datasets x 8 join-algorithm assignments (`states` = number of instances evaluated); it is a model of the executor, bound to the code only through L3"],
                         time.time() - t0, len(verdict.violations))
     return rc
